@@ -626,19 +626,8 @@ func c14Run(proto, mode string, reqs []*c14Req) (string, []*c14Reply, error, []c
 				all = append(append(all, be32(uint32(len(b)))...), b...)
 			}
 			conn := &c14Duplex{in: bytes.NewReader(all)}
-			// accept's return value is compared only for connections on which every request is
-			// consumed exactly: what the loop does after an undecodable request depends on how the
-			// rest of that frame reads as a header block (accept goes on after a non-transport
-			// error: its `else if err != nil` tests the shadowed, type-asserted variable).
-			aerr := frugal.VerifSimpleServerAccept(proc, pf, conn)
-			results = []string{"end"}
-			clean := true
-			for _, q := range reqs {
-				clean = clean && c14KeepsPosition(q)
-			}
-			if clean {
-				results = []string{class(nil, aerr)}
-			}
+			// accept ends at the first error of Process (nil at a clean end of input)
+			results = []string{class(nil, frugal.VerifSimpleServerAccept(proc, pf, conn))}
 			// the output must be a sequence of frames, each holding exactly one whole reply
 			rest := conn.out.Bytes()
 			for len(rest) > 0 {
@@ -712,7 +701,8 @@ func c14Run(proto, mode string, reqs []*c14Req) (string, []*c14Reply, error, []c
 				}
 				var err error
 				// the watchdog: a request with healthy transports must not wait for anything
-				if o := guard(2*time.Second, func() { err = proc.Process(pf.GetProtocol(in), pf.GetProtocol(outT)) }); o != "" {
+				if o := guard(time.Second, func() { err = proc.Process(pf.GetProtocol(in), pf.GetProtocol(outT)) }); o != "" {
+					c14Wedged++
 					results[i] = o
 					results = results[:i+1]
 					break
@@ -895,7 +885,7 @@ func c14Oracle(mode string, reqs []*c14Req, replies []*c14Reply, perr error, rea
 		return "processing a request sequence: " + real
 	}
 	if strings.Contains(real, "blocked") || strings.Contains(real, "panic:") {
-		return "a request with healthy transports did not return after an earlier request's reply could not be written (processor wedged): " + strings.SplitN(real, " ", 2)[0]
+		return "a request with healthy transports did not return (or panicked) after an earlier request's reply could not be written: the shared processor is wedged"
 	}
 	if perr != nil {
 		return "the output is not a sequence of whole replies: " + perr.Error()
@@ -1205,10 +1195,15 @@ func c14Minimise(proto, mode string, reqs []*c14Req) []*c14Req {
 	return cur
 }
 
+var c14Wedged, c14Minimised int
+
 func runC14(r *Rng, n int) {
 	for i := 0; i < n; i++ {
 		proto := r.PickS("bin", "cmp")
 		mode := r.PickS("shared", "simple", "sep", "sep", "http", "conc", "conc", "concsep", "bounded", "bounded", "fault", "fault")
+		if c14Wedged >= 12 && (mode == "bounded" || mode == "fault") {
+			mode = "sep" // established and reported; every further instance costs a watchdog period
+		}
 		k := 1 + r.Intn(9)
 		if mode == "conc" || mode == "concsep" {
 			k = 2 + r.Intn(7)
@@ -1249,7 +1244,11 @@ func runC14(r *Rng, n int) {
 			Sample(map[string]interface{}{"line": clip(line), "real": clip(real)})
 		}
 		if what := c14Oracle(mode, reqs, replies, perr, real); what != "" {
-			min := c14Minimise(proto, mode, reqs)
+			min := reqs
+			if c14Minimised < 4 { // each re-run of a wedging sequence costs a watchdog period
+				c14Minimised++
+				min = c14Minimise(proto, mode, reqs)
+			}
 			mreal, _, _, _ := c14Run(proto, mode, min)
 			OracleFail(what, map[string]interface{}{"op": "prc", "line": c14Line(proto, mode, min), "got": clip(mreal), "requests": len(min)})
 		}
